@@ -1665,6 +1665,186 @@ def secret_forms(sk):
 PROC_PASSWORDS = [b"", b"a", "p\u00e4ss \u2713 \U0001F511".encode("utf-8"), b"L" * 100] + WS_PASSWORDS
 
 
+# ---- C16 in its surroundings: the key commands on a terminal / a pipe / a file, passwords by variable or typed, and under a
+# KESTREL_KEYRING variable that names all sorts of things.  The references are independent of the implementation: RFC 7748 X25519
+# written out here, RFC 7914 scrypt by OpenSSL (hashlib), RFC 8439 from the C15 section above.
+def c16_x25519_pub(sk):
+    """RFC 7748 section 5: X25519(k, 9)"""
+    p = 2 ** 255 - 19
+    kb = bytearray(sk)
+    kb[0] &= 248
+    kb[31] &= 127
+    kb[31] |= 64
+    k = int.from_bytes(kb, "little")
+    x1, x2, z2, x3, z3, swap = 9, 1, 0, 9, 1, 0
+    for t in range(254, -1, -1):
+        kt = (k >> t) & 1
+        swap ^= kt
+        if swap:
+            x2, x3, z2, z3 = x3, x2, z3, z2
+        swap = kt
+        a, b = (x2 + z2) % p, (x2 - z2) % p
+        aa, bb = a * a % p, b * b % p
+        e = (aa - bb) % p
+        c, dd = (x3 + z3) % p, (x3 - z3) % p
+        da, cb = dd * a % p, c * b % p
+        x3, z3 = (da + cb) ** 2 % p, x1 * (da - cb) ** 2 % p
+        x2, z2 = aa * bb % p, e * (aa + 121665 * e) % p
+    if swap:
+        x2, x3, z2, z3 = x3, x2, z3, z2
+    return (x2 * pow(z2, p - 2, p) % p).to_bytes(32, "little")
+
+
+C16_X25519_KAT = ("77076d0a7318a57d3c16c17251b26645df4c2f87ebc0992ab177fba51db92c2a", "8520f0098930a754748b7ddcb43ef75a0dbf3a0d26381af4eba4a98eaa9b4e6a")
+
+
+def c16_ref_unlock(S, pw):
+    """the documented unlock of a PrivateKey string, independent of the implementation -> ('ok', key) | ('refused', why) |
+    ('unavailable', why) when OpenSSL's scrypt is missing"""
+    try:
+        blob = base64.b64decode(S, validate=True)
+    except Exception:
+        return ("refused", "not base64")
+    if len(blob) != 84 or blob[:4] != VERSION:
+        return ("refused", "%d bytes / version %r" % (len(blob), blob[:4]))
+    k = py_scrypt(pw, blob[4:36])
+    if k is None:
+        return ("unavailable", "hashlib.scrypt")
+    sk = bytes(a ^ b for a, b in zip(blob[36:68], c15_chacha_block(k, 1, bytes(12))))
+    if c15_aead_seal(k, bytes(12), VERSION, sk) != blob[36:]:
+        return ("refused", "authentication fails")
+    return ("ok", sk)
+
+
+def c16_unlock(S, pw):
+    r = c16_ref_unlock(S, pw)
+    if r[0] == "unavailable":                    # fall back on the in-process building block (compared with the model elsewhere)
+        u = cli_ops(["sk_unlock %s %s" % (hexs(S), hexs(pw))])[0]
+        return ("ok", unhex(u.get("out", "-"))) if u.get("outcome") == "ok" else ("refused", u.get("outcome", "?"))
+    return r
+
+
+def c16_ptyrun(job):
+    """tools/ptyrun.py in a process of its own: ONE command with its three streams wired to a pseudo-terminal / pipes / files"""
+    import json, sys
+    try:
+        p = subprocess.run([sys.executable, os.path.join(vlib.VERIF, "tools", "ptyrun.py")], input=json.dumps(job).encode(),
+                           stdout=subprocess.PIPE, stderr=subprocess.PIPE, timeout=float(job.get("timeout", 120)) + 30)
+        d = json.loads(p.stdout.decode() or "{}")
+    except (subprocess.TimeoutExpired, ValueError) as e:
+        d = {"rc": 125, "error": repr(e)[:200]}
+    d.setdefault("rc", 125)
+    for k in ("stdout", "stderr", "pty"):
+        d[k] = bytes.fromhex(d.get(k, ""))
+    return d
+
+
+C16_STREAMS = ["pty", "pipe", "file"]
+C16_DELIVER = ["env", "typed-at-dev-tty", "typed-on-stdin"]     # --env-pass | prompt on the controlling terminal | no controlling terminal: prompt on stderr, read from stdin (a terminal)
+C16_KEYRING_ENVS = ["unset", "right-section", "wrong-section", "wrong-then-right-section", "stale-string", "public-only", "unrelated",
+                    "missing-file", "a-directory", "junk", "not-utf8", "empty-file", "empty-value"]
+C16_TYPEABLE = [b"", b"a", "p\u00e4ss \u2713 \U0001F511".encode("utf-8"), b"L" * 100, b"hackme", b"Tr0ub4dor&3"] + WS_PASSWORDS
+
+
+def c16_keyring_env(kind, d, tag, me, other, cur, stale):
+    """what KESTREL_KEYRING names in this run -> (value | None, text of the file | None).
+    me = (name, PublicKey text); other = (name, PublicKey text, PrivateKey text); cur = the string the command is given"""
+    path = os.path.join(d, "keyring_%s.txt" % tag)
+    mine = lambda priv: key_block(me[0], me[1], priv)
+    oth = key_block(other[0], other[1], other[2])
+    text = None
+    if kind == "unset":
+        return None, None
+    if kind == "right-section":
+        text = oth + b"\n" + mine(cur)
+    elif kind == "wrong-section":                         # the string pasted under ANOTHER contact's section
+        text = key_block(other[0], other[1], cur) + b"\n" + mine(None)
+    elif kind == "wrong-then-right-section":
+        text = key_block(other[0], other[1], cur) + b"\n" + mine(cur)
+    elif kind == "stale-string":                          # the keyring still lists an earlier string of the same key
+        text = mine(stale) + b"\n" + oth
+    elif kind == "public-only":
+        text = mine(None) + b"\n" + oth
+    elif kind == "unrelated":
+        text = oth
+    elif kind == "junk":
+        text = b"this is not a keyring\nPrivateKey = " + cur + b"\n"
+    elif kind == "not-utf8":
+        text = mine(cur) + b"# caf\xe9\n"
+    elif kind == "empty-file":
+        text = b""
+    elif kind == "missing-file":
+        return os.path.join(d, "no_such_keyring_%s" % tag), None
+    elif kind == "a-directory":
+        return d, None
+    elif kind == "empty-value":
+        return "", None
+    else:
+        raise ValueError(kind)
+    with open(path, "wb") as f:
+        f.write(text)
+    return path, text
+
+
+def c16_surr_run(d, tag, cmd, S, pw, new, surr, me, other, stale):
+    """one `key change-pass` / `key extract-pub` run in the surroundings `surr` = dict(stdout, stderr, deliver, keyring, decoy,
+    stdin, envpass_first) -> record"""
+    prompting = surr["deliver"] != "env"
+    argv = ["key", cmd] + ((["--env-pass", S.decode()] if surr.get("envpass_first") else [S.decode(), "--env-pass"]) if not prompting else [S.decode()])
+    env = {"PATH": "/usr/bin:/bin", "HOME": d, "LANG": "C.UTF-8"}
+    typed = []
+    if prompting:
+        typed = [pw.decode("utf-8")] + ([new.decode("utf-8")] * 2 if cmd == "change-pass" else [])
+        if surr.get("decoy") is not None:               # variables that nothing may read without --env-pass
+            env.update(env_pw(surr["decoy"], DECOY_NEW_PASSWORD))
+    else:
+        env.update(env_pw(pw, new if cmd == "change-pass" else (DECOY_NEW_PASSWORD if surr.get("decoy") is not None else None)))
+    kval, ktext = c16_keyring_env(surr["keyring"], d, tag, me, other, S, stale)
+    if kval is not None:
+        env["KESTREL_KEYRING"] = kval
+    sin = "pty" if prompting else surr.get("stdin", "null")
+    # (a controlling terminal that none of the child's descriptors keeps open would hang up at once: only together with stdin)
+    job = {"argv": [vlib.CLIDRV] + argv, "env": env, "cwd": d, "ctty": surr["deliver"] == "typed-at-dev-tty" or (bool(surr.get("ctty")) and sin == "pty"),
+           "stdin": sin, "stdout": surr["stdout"], "stderr": surr["stderr"],
+           "stdout_path": os.path.join(d, "stdout_%s" % tag), "stderr_path": os.path.join(d, "stderr_%s" % tag), "typed": typed, "timeout": 90}
+    res = c16_ptyrun(job)
+
+    def stream(name):
+        if job[name] == "pipe":
+            return res[name]
+        if job[name] == "pty":
+            return res["pty"]
+        try:
+            with open(job[name + "_path"], "rb") as f:
+                return f.read()
+        except OSError:
+            return b""
+    return {"cmd": cmd, "S": S, "pw": pw, "new": new, "surr": surr, "job": job, "res": res, "out": stream("stdout"), "err": stream("stderr"),
+            "keyring_text": ktext, "tag": tag}
+
+
+def c16_surr_describe(R):
+    j, res = R["job"], R["res"]
+    d = {"argv": ["kestrel"] + j["argv"][1:], "env": {k: v for k, v in j["env"].items() if k.startswith("KESTREL_")},
+         "streams": {"standard_input": "pseudo-terminal" if j["stdin"] == "pty" else "/dev/null", "standard_output": j["stdout"], "standard_error": j["stderr"],
+                     "controlling_terminal": "the pseudo-terminal (/dev/tty opens)" if j["ctty"] else "none"},
+         "typed_at_the_prompts": j["typed"], "exit": res.get("rc"), "stdout": R["out"][-300:].decode("utf-8", "replace"),
+         "stderr": R["err"][-300:].decode("utf-8", "replace"), "driver": "tools/ptyrun.py"}
+    if R["keyring_text"] is not None:
+        d["file_named_by_KESTREL_KEYRING"] = R["keyring_text"].decode("utf-8", "replace")
+    elif "KESTREL_KEYRING" in j["env"]:
+        d["KESTREL_KEYRING_names"] = R["surr"]["keyring"]
+    if res.get("error"):
+        d["driver_error"] = res["error"]
+    return d
+
+
+def c16_printed(R, label):
+    """the strings printed after `label = ` on the standard-output stream (a terminal's transcript also holds prompts)"""
+    import re
+    return re.findall(label + rb" = ([A-Za-z0-9+/=]*)", R["out"].replace(b"\r\n", b"\n"))
+
+
 class C16(ProcProp):
     id = "C16"
     rule = ("cases: in-process histories sk_lock -> 1..4 x (unlock, lock under a new password and salt) compared with the "
@@ -1673,6 +1853,16 @@ class C16(ProcProp):
             "leading / trailing space, TAB, U+00A0, U+3000 - each used as a new password) interleaved "
             "with extract-pub, a wrong old password, and an encrypt/decrypt with the re-locked key; runs with an injected "
             "random stream compared byte for byte with lock_private_key/serialize_key; secrets searched in every output; "
+            "surroundings part (tools/ptyrun.py): 3 (thorough 8) histories from a GIVEN key (locked by an independent writer) whose change-pass / "
+            "extract-pub runs have standard output and standard error on a pseudo-terminal, a pipe or a file (each history has both commands "
+            "with standard output on the terminal), the passwords given by variable, typed at /dev/tty, or typed on standard input without a "
+            "controlling terminal (with decoy KESTREL_* variables that nothing may read), and KESTREL_KEYRING unset / naming a keyring that lists "
+            "the very PrivateKey string under the right section, under ANOTHER contact's section, under both, an earlier string of the key, only "
+            "the public key, other keys, a missing file, a directory, junk, a non-UTF-8 file, an empty file, the empty string (13 kinds, each "
+            "swept for extract-pub right / wrong password and change-pass); judged from the string and the passwords alone with an independent "
+            "unlock (OpenSSL scrypt, RFC 8439 written out) and an independent RFC 7748 X25519: the printed PrivateKey unlocks under the NEW "
+            "password to the original key, not under the old one, with a salt not seen before in the history; extract-pub prints the public key "
+            "of the private key; a wrong / earlier password gives exit 1 and no key, whatever the surroundings; "
             "non-trivial = all")
     assumptions = ["fresh salts come from the operating system's generator: distinctness is observed per history, not proved",
                    "the CLI process is judged by direct oracles and, for 16 change-pass / extract-pub / generate runs, compared with the CLI model; its building blocks lock/unlock/encode "
@@ -1682,6 +1872,9 @@ class C16(ProcProp):
         cases = inproc_histories(self, ctx, 20 if ctx.thorough() else 8)
         self.run_kcases(ctx, cases)
         self.proc_histories(ctx, 24 if ctx.thorough() else 8)
+        t_su = time.time()
+        self.surround_part(ctx)
+        ctx.distribution["seconds:surroundings-part"] = round(time.time() - t_su, 1)
         # the process against the CLI model (change-pass / extract-pub / generate to stdout)
         model_cli_part(ctx, lambda ctx, mw, root: c16_model_cases(ctx, mw))
         ctx.search_note = "direct oracle over all %d cases" % ctx.evaluations
@@ -1851,6 +2044,205 @@ class C16(ProcProp):
                        "C16 history %d with injected random stream" % pl["h"], [r for _, r in rec["runs"]],
                        "generate draws the key then the salt, change-pass draws the salt; the printed strings equal lock_private_key "
                        "on those values and the public key is the X25519 public key of the private key", "strings %r vs %r" % (rec["strs"], want))
+
+    # ---- the key commands in their surroundings: standard output / error on a terminal, a pipe, a file; passwords by variable,
+    # typed at /dev/tty, typed on standard input; KESTREL_KEYRING unset / naming a keyring that lists the very string (under the
+    # right section, under another contact's section, both), an earlier string, other keys, no file, a directory, junk ...
+    # What is printed must depend on the string and the password ONLY.
+    def surr(self, rng, **fixed):
+        s = {"stdout": rng.choice(C16_STREAMS), "stderr": rng.choice(C16_STREAMS), "deliver": rng.choice(C16_DELIVER),
+             "keyring": rng.choice(C16_KEYRING_ENVS), "stdin": rng.choice(["null", "pty"]), "ctty": rng.random() < 0.3,
+             "envpass_first": rng.random() < 0.5, "decoy": None}
+        s.update(fixed)
+        return s
+
+    def surr_lock(self, sk, pw, salt):
+        blob = c15_ref_blob(sk, pw, salt)
+        if blob is None:
+            return unhex(cli_ops(["sk_lock %s %s %s" % (hexs(sk), hexs(pw), hexs(salt))])[0]["out"])
+        return base64.b64encode(blob)
+
+    def surr_wrong(self, rng, p, earlier=()):
+        c = [q for q in list(earlier) + [p + b"x", p[:-1] if p else b"w", b"nonsense", b"", p.swapcase(), p + b" "] if hmac_key(q) != hmac_key(p) and c15_envable(q)]
+        return rng.choice(c)
+
+    def surround_part(self, ctx):
+        rng = ctx.rng
+        full = ctx.thorough()
+        if c16_x25519_pub(bytes.fromhex(C16_X25519_KAT[0])).hex() != C16_X25519_KAT[1]:
+            raise RuntimeError("C16: the reference X25519 does not reproduce the RFC 7748 vector")
+        w = World(prefix="kv_c16s_")
+        try:
+            osk = ctx.rbytes(32)
+            other = (b"other contact", c15_enc_pub(c16_x25519_pub(osk)), self.surr_lock(osk, b"other pw", ctx.rbytes(32)))
+            nh = 8 if full else 3
+            plans = []
+            for h in range(nh):
+                n = (1 + h % 4) if full else (2, 3, 2)[h % 3]
+                pws = [rng.choice(C16_TYPEABLE)]
+                for i in range(n):
+                    q = rng.choice(C16_TYPEABLE)
+                    if q == pws[-1] and rng.random() < 0.8:
+                        q = q + b"+"
+                    pws.append(q)
+                if h % 4 == 2 and hmac_key(pws[0]) != hmac_key(pws[-2]):
+                    pws[-1] = pws[0]                     # a password that comes back
+                sk = ctx.rbytes(32)
+                steps = []
+                for i in range(1, n + 1):
+                    # every history has a change-pass and an extract-pub whose standard output is a terminal; the three ways of giving
+                    # the passwords rotate
+                    steps.append({"change": self.surr(rng, stdout=C16_STREAMS[(h + i - 1) % 3], deliver=C16_DELIVER[(2 * h + i) % 3]),
+                                  "extract": self.surr(rng, stdout=C16_STREAMS[(h + i) % 3], deliver=C16_DELIVER[(h + i) % 3]),
+                                  "wrong": self.surr(rng, stdout=C16_STREAMS[(h + i + 1) % 3]),
+                                  # step 1: a wrong OLD password for change-pass; later steps: extract-pub with the password before the last change
+                                  "wrong_pw": self.surr_wrong(rng, pws[i - 1], pws[max(0, i - 2):i - 1])})
+                plans.append({"h": h, "name": rng.choice([b"alice", b"Bob B", "kéy".encode("utf-8")]), "sk": sk, "pub": c15_enc_pub(c16_x25519_pub(sk)),
+                              "pws": pws, "S0": self.surr_lock(sk, pws[0], ctx.rbytes(32)), "stale0": self.surr_lock(sk, b"an earlier password", ctx.rbytes(32)),
+                              "steps": steps, "final": self.surr(rng, stdout=C16_STREAMS[h % 3]), "other": other})
+            recs = self.pmap(lambda pl: self.surr_history(w, pl), plans)
+            for rec in recs:
+                self.surr_judge_history(ctx, rec)
+            # ---- the sweep over what KESTREL_KEYRING names, on the newest string of each history
+            jobs = []
+            done = [rec for rec in recs if rec["complete"]]
+            for k, kind in enumerate(C16_KEYRING_ENVS):
+                for rec in (done if full else done[k % max(1, len(done)):][:1]):
+                    pl = rec["plan"]
+                    S, p = rec["strs"][-1], pl["pws"][-1]
+                    stale = rec["strs"][-2]
+                    base = {"rec": rec, "S": S, "stale": stale}
+                    fast = lambda **kw: self.surr(rng, keyring=kind, deliver=rng.choice(["env", "env", "env"] + C16_DELIVER), **kw)
+                    jobs.append(dict(base, cmd="extract-pub", pw=p, new=None, role="extract", surr=fast()))
+                    jobs.append(dict(base, cmd="extract-pub", pw=self.surr_wrong(rng, p, pl["pws"][:-1]), new=None, role="extract-wrong", surr=fast()))
+                    jobs.append(dict(base, cmd="change-pass", pw=p, new=rng.choice(C16_TYPEABLE) + b"!", role="change", surr=fast()))
+                    if full or kind in ("right-section", "wrong-section", "wrong-then-right-section", "stale-string"):
+                        jobs.append(dict(base, cmd="extract-pub", pw=self.surr_wrong(rng, p, pl["pws"][:-1]), new=None, role="extract-wrong", surr=fast(stdout="pty")))
+                        jobs.append(dict(base, cmd="change-pass", pw=self.surr_wrong(rng, p, pl["pws"][:-1]), new=b"never used", role="change-wrong", surr=fast()))
+                        jobs.append(dict(base, cmd="extract-pub", pw=p, new=None, role="extract", surr=fast(stdout=rng.choice(["pty", "file"]))))
+            for i, j in enumerate(jobs):
+                j["i"] = i
+                if j["surr"]["deliver"] != "env" and rng.random() < 0.5:     # variables nothing may read without --env-pass
+                    j["surr"]["decoy"] = j["rec"]["plan"]["pws"][-1] if j["role"].endswith("wrong") else b"decoy: not the password"
+
+            def sweep_one(j):
+                pl = j["rec"]["plan"]
+                R = c16_surr_run(w.dir, "s%d" % j["i"], j["cmd"], j["S"], j["pw"], j["new"], j["surr"], (pl["name"], pl["pub"]), pl["other"], j["stale"])
+                R["role"], R["h"] = j["role"], pl["h"]
+                return R
+            for j, R in zip(jobs, self.pmap(sweep_one, jobs)):
+                pl = j["rec"]["plan"]
+                self.count(ctx, "surroundings:keyring-variable:%s:%s" % (j["surr"]["keyring"], j["role"]))
+                self.surr_judge_run(ctx, R, pl, j["rec"]["strs"], "C16 surroundings, KESTREL_KEYRING %s" % j["surr"]["keyring"])
+            nr = sum(len(rec["runs"]) for rec in recs) + len(jobs)
+            ctx.evaluations += nr
+            self.count(ctx, "proc:runs", nr)
+            self.sample(ctx, {"gen": "surroundings", "histories": nh, "runs": nr, "streams": "stdout/stderr in {terminal, pipe, file}",
+                              "passwords": C16_DELIVER, "KESTREL_KEYRING": C16_KEYRING_ENVS})
+        finally:
+            w.close()
+
+    def surr_history(self, w, pl):
+        d = os.path.join(w.dir, "h%d" % pl["h"])
+        os.mkdir(d)
+        runs, strs = [], [pl["S0"]]
+        seq = itertools.count()
+
+        def go(cmd, pw, new, surr, role):
+            surr = dict(surr)
+            if surr["deliver"] != "env" and surr.get("decoy") is None and (pl["h"] + len(runs)) % 2 == 0:
+                surr["decoy"] = pl["pws"][len(strs) - 1] if role.endswith("wrong") else b"decoy: not the password"
+            R = c16_surr_run(d, "%d_%d" % (pl["h"], next(seq)), cmd, strs[-1], pw, new, surr, (pl["name"], pl["pub"]), pl["other"],
+                             strs[-2] if len(strs) > 1 else pl["stale0"])
+            R["role"], R["h"] = role, pl["h"]
+            runs.append(R)
+            return R
+        for i, st in enumerate(pl["steps"], 1):
+            old, new = pl["pws"][i - 1], pl["pws"][i]
+            go("extract-pub", old, None, st["extract"], "extract")
+            if i == 1:
+                go("change-pass", st["wrong_pw"], new, st["wrong"], "change-wrong")
+            else:
+                go("extract-pub", st["wrong_pw"], None, st["wrong"], "extract-wrong")
+            R = go("change-pass", old, new, st["change"], "change")
+            got = c16_printed(R, b"PrivateKey")
+            if R["res"].get("rc") != 0 or len(got) != 1 or got[0] == strs[-1]:
+                break
+            strs.append(got[0])
+        complete = len(strs) == len(pl["pws"])
+        if complete:
+            go("extract-pub", pl["pws"][-1], None, pl["final"], "extract")
+        return {"plan": pl, "runs": runs, "strs": strs, "complete": complete}
+
+    def surr_judge_history(self, ctx, rec):
+        pl = rec["plan"]
+        sc = "C16 surroundings, history %d (%d password changes)" % (pl["h"], len(pl["pws"]) - 1)
+        for R in rec["runs"]:
+            self.count(ctx, "surroundings:%s:stdout=%s,passwords=%s" % (R["cmd"], R["surr"]["stdout"], R["surr"]["deliver"]))
+            self.count(ctx, "surroundings:keyring-variable:%s:%s" % (R["surr"]["keyring"], R["role"]))
+            # the strings of the history known when R ran: everything up to R's own input
+            upto = rec["strs"][:rec["strs"].index(R["S"]) + 1] if R["S"] in rec["strs"] else rec["strs"]
+            self.surr_judge_run(ctx, R, pl, upto, sc)
+        desc = [c16_surr_describe(R) for R in rec["runs"] if R["role"] == "change"]
+        if rec["complete"]:
+            salts = [base64.b64decode(s)[4:36] for s in rec["strs"]]
+            ctx.oracle_checks += 1
+            if len(set(salts)) != len(salts):
+                self.viol(ctx, sc, desc, "every change uses a new salt", "salts %r" % [s.hex() for s in salts])
+            for p in pl["pws"][:-1]:
+                same = hmac_key(p) == hmac_key(pl["pws"][-1])
+                u = c16_unlock(rec["strs"][-1], p)
+                ctx.oracle_checks += 1
+                if (u[0] == "ok") != same:
+                    self.viol(ctx, sc, desc, "an earlier password %s on the newest string" % ("still works when equal to the newest" if same else "fails"),
+                              "password %r: %s" % (p[:20], u[0]))
+
+    def surr_judge_run(self, ctx, R, pl, known_strs, sc):
+        """one run judged from the string, the password(s) and the key alone"""
+        res, role, surr = R["res"], R["role"], R["surr"]
+        sc = "%s: key %s, standard output %s, standard error %s, passwords %s, KESTREL_KEYRING %s" % (
+            sc, R["cmd"], surr["stdout"], surr["stderr"], surr["deliver"], surr["keyring"])
+        desc = [c16_surr_describe(R)]
+        rc = res.get("rc")
+        out = R["out"].replace(b"\r\n", b"\n")
+        strict = surr["stdout"] != "pty"            # a terminal's transcript also holds the prompts
+        privs, pubs = c16_printed(R, b"PrivateKey"), c16_printed(R, b"PublicKey")
+
+        def J(ok, expected, observed):
+            ctx.oracle_checks += 1
+            if not ok:
+                self.viol(ctx, sc, desc, expected, observed)
+            return ok
+        shown = "exit %s, standard output %r, standard error %r %s" % (rc, out[-200:], R["err"][-200:], res.get("error", ""))
+        if role.endswith("wrong"):
+            J(rc == 1 and not privs and not pubs and (not strict or out == b"") and b"Error:" in R["err"],
+              "a password that does not unlock the string (%r): exit 1, an Error: message, no key on standard output" % R["pw"][:24], shown)
+        elif role == "extract":
+            want = b"PublicKey = " + pl["pub"] + b"\n"
+            J(rc == 0 and pubs == [pl["pub"]] and not privs and (not strict or out == want),
+              "extract-pub with the password of the string prints the X25519 public key of the private key in the keyring encoding: %r" % want, shown)
+        else:
+            ok = J(rc == 0 and len(privs) == 1 and not pubs and (not strict or out == b"PrivateKey = " + privs[0] + b"\n"),
+                   "change-pass with the password of the string succeeds and prints one PrivateKey line", shown)
+            if ok:
+                X = privs[0]
+                u = c16_unlock(X, R["new"])
+                J(u == ("ok", pl["sk"]), "the printed string unlocks with the NEW password %r to the original private key" % R["new"][:24],
+                  "printed %r: %s%s" % (X, u[0], "" if u[0] != "ok" else " (another key)") + ("; it is the string that was given" if X == R["S"] else ""))
+                if hmac_key(R["pw"]) != hmac_key(R["new"]):
+                    uo = c16_unlock(X, R["pw"])
+                    J(uo[0] != "ok", "the old password %r no longer unlocks the printed string" % R["pw"][:24], "it unlocks it")
+                try:
+                    salt = base64.b64decode(X)[4:36]
+                except Exception:
+                    salt = None
+                J(salt is not None and salt not in [base64.b64decode(s)[4:36] for s in known_strs], "the change uses a new salt",
+                  "salt %s, salts so far %r" % (salt.hex() if salt else None, [base64.b64decode(s)[4:36].hex() for s in known_strs]))
+        for what, needle in secret_forms(pl["sk"]):
+            for stream, data in (("standard output", R["out"]), ("standard error", R["err"]), ("the terminal", res["pty"])):
+                ctx.oracle_checks += 1
+                if needle in data:
+                    self.viol(ctx, sc, desc, "the raw private key never appears in any output", "%s of the private key found on %s" % (what, stream))
 
 
 props.REGISTRY[C15.id] = C15()
@@ -2657,7 +3049,16 @@ class C12(ProcProp):
             "the WHOLE resulting tree): every command x 16 shapes of an -o path that cannot be created (missing parent, a directory, '.', '..', "
             "'/', trailing slash, a file used as a directory, the empty string, absolute and dotted spellings), 10 dotted / absolute / '..' "
             "spellings of a path that can, processes started in sub-directories, dotted / absolute / unresolvable input and keyring paths, "
-            "directories as input (quick 51, thorough 214); non-trivial = every run")
+            "directories as input (quick 51, thorough 214); sender report (s4a_sender_report_part): every cell of {-o | stdout pipe | stdout "
+            "redirected to a file} x stderr {pipe | file | terminal | character device} x keyring {sender first, last, under another name, "
+            "absent}: exit status, exactly the plaintext at the destination, and on stderr exactly the report lines (failing files: exit 1, the "
+            "authenticated prefix, an Error: line and no report); the reported NAME byte for byte for 14 classes of names a keyring may hold "
+            "(quotes, backslashes, control characters, ZWJ emoji, zero-width and bidi marks, combining marks first, 128-byte names, names that "
+            "look like options / keyring syntax / format strings, inner exotic spaces, non-characters) and random ones, partly as the "
+            "recipient's name given to --to as well; sender keys with bit 255 set (shared with C05: props.s4a_c05_key_bytes); operands spelled "
+            "like the tool's own words (34 words: command names, aliases, option names without dashes, help, version) as input file, -o target, "
+            "-t / -f key name, -k / KESTREL_KEYRING path, and as a recipient who is not in the keyring: the operation is carried out resp. refused "
+            "like for any other name; non-trivial = every run")
     assumptions = ["the full wiring matrix is judged by direct oracles; the CLI model (Model/CliGlue.v::real_cli_main) is compared with the "
                    "real process on small worlds (150-byte plaintext, 4 wirings x 4 inputs, encrypt / password modes, help, version) and the "
                    "real argument parser with Model/CliParse.v on exhaustive short argument vectors",
@@ -2781,6 +3182,9 @@ class C12(ProcProp):
             t_tg = time.time()
             self.targets_part(ctx, w)
             ctx.distribution["seconds:output-targets"] = round(time.time() - t_tg, 1)
+            t_tg = time.time()
+            s4a_sender_report_part(self, ctx, w)
+            ctx.distribution["seconds:sender-report"] = round(time.time() - t_tg, 1)
             ctx.evaluations += w.nruns
             self.count(ctx, "proc:runs", w.nruns)
         finally:
@@ -3121,6 +3525,397 @@ class C12(ProcProp):
             shutil.rmtree(d, ignore_errors=True)
 
 
+# =========================================================================== the sender report: every wiring of stdout AND stderr, every kind of name
+def s4a_proc(w, argv, env=None, stdin=None, out="pipe", err="pipe", timeout=120, cwd=None):
+    """one real process with BOTH output streams wired as asked (World.run always gives it two pipes).
+    stdin: None (= the null device, opened read-only by this harness) | bytes | ('file', name in the world's directory)
+    out:   'pipe' | ('file', path)
+    err:   'pipe' | ('file', path) | ('node', path of a PRIVATE character device, vlib.private_special) | 'pty' (the slave of a
+           pseudo-terminal in raw mode: isatty(stderr) holds and the bytes arrive unchanged)
+    Returns a Run whose .out / .err are the bytes that ARRIVED (read back from the file resp. the terminal; b"" for a device
+    node, which keeps nothing), or None when no pseudo-terminal can be had here."""
+    import threading
+    cwd = cwd or w.dir
+    e = {"PATH": "/usr/bin:/bin", "HOME": cwd, "LANG": "C.UTF-8"}
+    e.update(env or {})
+    fh, data, master, slave, th = None, None, None, None, None
+    so = se = None
+    chunks = []
+    try:
+        if stdin is None:
+            sin = subprocess.DEVNULL
+        elif isinstance(stdin, tuple):
+            fh = open(os.path.join(cwd, stdin[1]), "rb")
+            sin = fh
+        else:
+            sin, data = subprocess.PIPE, stdin
+        if err == "pty":
+            try:
+                import pty, tty
+                master, slave = pty.openpty()
+                tty.setraw(slave)
+            except Exception:
+                return None
+        so = subprocess.PIPE if out == "pipe" else open(out[1], "wb")
+        se = subprocess.PIPE if err == "pipe" else (slave if err == "pty" else open(err[1], "wb"))
+        p = subprocess.Popen([w.bin] + list(argv), env=e, stdin=sin, stdout=so, stderr=se, start_new_session=True, cwd=cwd)
+        if slave is not None:
+            os.close(slave)
+            slave = None
+
+            def rd():
+                while True:
+                    try:
+                        b = os.read(master, 1 << 16)
+                    except OSError:          # EIO: every descriptor of the slave side is closed and nothing is left
+                        break
+                    if not b:
+                        break
+                    chunks.append(b)
+            th = threading.Thread(target=rd, daemon=True)
+            th.start()
+        try:
+            o, x = p.communicate(input=data, timeout=timeout)
+            rc = p.returncode
+        except subprocess.TimeoutExpired:
+            p.kill()
+            o, x = p.communicate()
+            rc, x = 124, (x or b"") + b"\n[timeout]"
+        if th:
+            th.join(timeout=10)
+    finally:
+        for f in (fh, so, se):
+            if f is not None and hasattr(f, "close"):
+                f.close()
+        for fd in (slave, master):
+            if fd is not None:
+                try:
+                    os.close(fd)
+                except OSError:
+                    pass
+    w.nruns += 1
+
+    def back(path):
+        try:
+            with open(path, "rb") as f:
+                return f.read()
+        except OSError:
+            return b""
+    o = (o or b"") if out == "pipe" else back(out[1])
+    x = (x or b"") if err == "pipe" else (b"".join(chunks) if err == "pty" else (back(err[1]) if err[0] == "file" else b""))
+    return Run(list(argv), dict(env or {}), ("<" + stdin[1]) if isinstance(stdin, tuple) else stdin, rc, o, x)
+
+
+def s4a_report_lines(err):
+    """the sender report as BYTES (names are compared byte for byte): stderr lines beginning Success. / Caution. / Unknown key:"""
+    return [l for l in err.split(b"\n") if l.startswith((b"Success.", b"Caution.", b"Unknown key:"))]
+
+
+def s4a_clean_name(s):
+    """what the keyring parser keeps of the text after 'Name =': tabs removed, White_Space trimmed; None if that is no valid name
+    (empty, more than 128 bytes, a line break inside)"""
+    s = rust_trim(s.replace("\t", ""))
+    if not s or "\n" in s or len(s.encode("utf-8")) > 128:
+        return None
+    return s
+
+
+S4A_NAME_CLASSES = [
+    ("plain", ["alice2", "Zo\u00eb M\u00fcller", "\u5c71\u7530 \u592a\u90ce", "ALICE", "a"]),
+    ("quotes", ["Alice O'Neil", "\"quoted\"", "Dwayne \"The Rock\" J.", "`tick`", "a\"b'c", "'", "\"", "''", "\u2018curly\u2019"]),
+    ("backslash", ["CORP\\alice", "\\\\server\\share", "trailing\\", "\\", "\\n", "\\t\\r\\0", "\\x1b[31m", "\\u{200d}", "a\\'b", "\\\\"]),
+    ("control", ["a\x1b[31mred\x1b[0m", "bell\x07x", "nul\x00x", "a\rb", "del\x7fx", "c1\u009bx", "nel\u0085x", "\x01", "vt\x0bx", "ff\x0cx", "bs\x08\x08\x08xyz"]),
+    ("zwj-emoji", ["\U0001F469\u200d\U0001F469\u200d\U0001F467\u200d\U0001F466", "\U0001F3F3\ufe0f\u200d\U0001F308", "dev \U0001F468\U0001F3FD\u200d\U0001F4BB",
+                   "\U0001F600", "\u2764\ufe0f", "1\ufe0f\u20e3"]),
+    ("zero-width", ["a\u200bb", "a\u200cb", "a\u200db", "a\u2060b", "a\ufeffb", "\ufeffbom first", "soft\u00adhyphen", "\u200b", "x\u200b", "\u180eMVS", "a\u034fb"]),
+    ("combining", ["e\u0301", "a\u0300\u0301\u0302\u0303\u0304", "\u0301starts with a mark", "Z\u0351\u0327a\u0310\u0316lgo", "\u0e01\u0e33", "\u09a8\u09bf", "q\u20dd"]),
+    ("bidi", ["\u202egpj.exe\u202c", "\u200fabc", "abc\u200e", "\u05e9\u05dc\u05d5\u05dd", "\u0645\u0631\u062d\u0628\u0627 bob", "\u2067isolate\u2069", "a\u061cb"]),
+    ("128-bytes", ["a" * 128, "\u00e9" * 64, "\u20ac" * 42 + "ab", "\U0001F600" * 32, "'" * 128, "\\" * 128, "\u200d" * 42 + "zz", "\x1b" * 128,
+                   "n" * 125 + "\u20ac"]),
+    ("option-like", ["-o", "--to", "--help", "-h", "help", "--env-pass", "-", "--", "-k=kr", "--output=x", "-t bob", "version", "decrypt"]),
+    ("keyring-syntax", ["[Key]", "Name = x", "a = b", "# not a comment", "PublicKey", "PrivateKey = x", "x#y", "=", "==x", "Name", "[Key] x", ";", "a;b"]),
+    ("format-like", ["{}", "{0}", "%s%n", "{name}", "{:?}", "$HOME", "$(id)", "a|b", "a&b", "<x>", "*"]),
+    ("inner-space", ["a  b", "a\u00a0b", "a\u3000b", "a\u2028b", "a\u2003b", "line\u2029sep"]),
+    ("special-planes", ["\ufffd", "x\uffff", "\U0010ffff", "\ue000", "\u0378", "\U000e0001tag", "\U000f0000", "\ufdd0"]),
+]
+
+S4A_POOLS = [list(range(0x21, 0x7f)), [0x27, 0x22, 0x5c, 0x60], [c for c in range(0, 0x20) if c not in (9, 10)] + [0x7f], list(range(0x80, 0xa0)),
+             list(range(0xc0, 0x100)) + list(range(0x4e00, 0x4e40)), list(range(0x300, 0x370)),
+             [0xad, 0x200b, 0x200c, 0x200d, 0x200e, 0x200f, 0x2060, 0x2061, 0x2066, 0x2067, 0x2068, 0x2069, 0x202a, 0x202b, 0x202c, 0x202d, 0x202e, 0xfeff],
+             list(range(0x1f600, 0x1f650)), [0x200d, 0xfe0f] + list(range(0x1f3fb, 0x1f400)), [0xe000, 0x378, 0xfffe, 0xffff, 0x10ffff, 0xf0000],
+             [0x20, 0xa0, 0x2003, 0x3000, 0x2028, 0x85, 0x0d, 0x0b, 0x0c]]
+
+
+def s4a_names(ctx, nrandom):
+    """[(class, name)] — every class of name the keyring parser accepts (Model/KeyringText.v: 1..128 bytes of UTF-8 after the
+    tabs are removed and the White_Space around it trimmed; nothing else is looked at), plus names assembled from random scalar
+    values of those classes"""
+    rng = ctx.rng
+    out = []
+    for cls, names in S4A_NAME_CLASSES:
+        for n in names:
+            assert s4a_clean_name(n) == n, (cls, n)
+            out.append((cls, n))
+    while nrandom > 0:
+        pools = rng.sample(S4A_POOLS, rng.randrange(1, 4))
+        s = "".join(chr(rng.choice(rng.choice(pools))) for _ in range(rng.choice([1, 2, 3, 5, 8, 13, 21])))
+        while len(s.encode("utf-8")) > 128:
+            s = s[:-1]
+        s = s4a_clean_name(s)
+        if s:
+            out.append(("random", s))
+            nrandom -= 1
+    return out
+
+
+def s4a_sender_report_part(self, ctx, w):
+    """C12: 'after a successful key-based decryption it names the keyring entry whose public key equals the authenticated sender key,
+    or reports the key as unknown together with its encoding', however the streams are wired.
+    1. the sender report in EVERY cell of {-o | stdout pipe | stdout file} x stderr {pipe | file | terminal | character device} x
+       keyring {sender first, last, under another name, absent} (input file/stdin, -k/KESTREL_KEYRING, plaintext size drawn per cell;
+       thorough: all): exit 0, exactly the plaintext at the destination, nothing else on stdout, and on stderr exactly the report
+       lines (unobservable for the device: status and bytes only).  Failing decryptions in the same cells: exit 1, the
+       authenticated prefix, an Error: line and NO sender report.
+    2. the reported name byte for byte, for every class of name a keyring may hold (S4A_NAME_CLASSES + random ones), the sender's
+       entry first or last, over random observable wirings; in a part of the runs the RECIPIENT's entry carries such a name too
+       and is selected with --to."""
+    rng = ctx.rng
+    P = w.P
+    full = ctx.thorough()
+    alice = w.pub["alice"]
+    known = lambda n: [b"Success. File from: " + n]
+    unknown = [b"Caution. File is from an unknown key.", b"Unknown key: " + alice]
+    krs = [("kr_first", known(b"alice")), ("kr_last", known(b"alice")), ("kr_renamed", known(b"zed")), ("kr_absent", unknown)]
+    files = [("ct_small", P["small"], True), ("ct_empty", b"", True), ("ct_big", P["big"], True)]
+    bad = [("ct_bad2", P["big"][:CHUNK], False), ("ct_small_x1", b"", False), ("ct_bad1", b"", False)]
+    outs, errs = ("o", "pipe", "file"), ("pipe", "file", "pty", "node")
+    sub = w.p("s4a")
+    os.mkdir(sub)
+    node = vlib.private_special(sub, "null")
+    jobs = []
+
+    def add(kind, f, plain, ok, kr, want, o, e, inp, krhow, to=b"bob", label=""):
+        jobs.append({"i": len(jobs), "kind": kind, "f": f, "plain": plain, "ok": ok, "kr": kr, "want": want, "out": o, "err": e, "inp": inp,
+                     "krhow": krhow, "to": to, "label": label})
+    for o in outs:
+        for e in errs:
+            for kr, want in krs:
+                for (f, plain, ok) in (files if full else [rng.choice(files)]):
+                    for inp in (("arg", "stdin") if full else [rng.choice(["arg", "stdin"])]):
+                        add("cell", f, plain, ok, kr, want, o, e, inp, rng.choice(["k", "env"]))
+            for (f, plain, ok) in (bad if full else [rng.choice(bad)]):
+                add("cell-failing", f, plain, ok, rng.choice(krs)[0], [], o, e, rng.choice(["arg", "stdin"]), rng.choice(["k", "env"]))
+    # ---- names
+    bname, bpub, bpriv = parse_block(w.blocks["bob"])
+    carol = key_block(b"carol", w.pub["carol"])
+    names = s4a_names(ctx, 60 if full else 12)
+    for i, (cls, n) in enumerate(names):
+        nb = n.encode("utf-8")
+        to = b"bob"
+        if rng.random() < 0.3:
+            cand = rng.choice(names)[1].encode("utf-8")
+            if b"\x00" not in cand and cand != nb:
+                to = cand
+        if nb == to:
+            to = b"bob2"
+        blocks = [key_block(to, bpub, bpriv), carol]
+        first = rng.random() < 0.5
+        blocks = ([key_block(nb, alice)] + blocks) if first else (blocks + [key_block(nb, alice)])
+        kr = "s4a/kr_%d" % i
+        w.write(kr, b"\n".join(blocks))
+        for rep in range(2 if full else 1):
+            f, plain, ok = rng.choice(files)
+            add("name", f, plain, ok, kr, known(nb), rng.choice(outs), rng.choice(errs[:3]), rng.choice(["arg", "stdin"]), rng.choice(["k", "env"]),
+                to=to, label="%s name %r (%d bytes), sender's entry %s" % (cls, n, len(nb), "first" if first else "last"))
+
+    def one(j):
+        i = j["i"]
+        argv = [rng_cmd[i % 2]] + ([j["f"]] if j["inp"] == "arg" else [])
+        argv += [b"--to=" + j["to"]] if (j["to"].startswith(b"-") or i % 3 == 0) else ["-t", j["to"]]
+        env = env_pw(w.pw["bob"])
+        if j["krhow"] == "k":
+            argv += ["-k", j["kr"]]
+        else:
+            env["KESTREL_KEYRING"] = j["kr"]
+        argv += ["--env-pass"]
+        op = os.path.join(sub, "out_%d" % i)
+        if j["out"] == "o":
+            argv += ["-o", os.path.join("s4a", "out_%d" % i)]
+        o = ("file", op) if j["out"] == "file" else "pipe"
+        e = {"pipe": "pipe", "pty": "pty", "file": ("file", os.path.join(sub, "err_%d" % i)), "node": ("node", node)}[j["err"]]
+        if j["err"] == "node" and node is None:
+            return None
+        r = s4a_proc(w, argv, env=env, stdin=None if j["inp"] == "arg" else ("file", j["f"]), out=o, err=e)
+        if r is None:
+            return None
+        filed = None
+        if j["out"] == "o":
+            try:
+                with open(op, "rb") as fh:
+                    filed = fh.read()
+            except OSError:
+                pass
+        for pth in (op, os.path.join(sub, "err_%d" % i)):
+            try:
+                os.remove(pth)
+            except OSError:
+                pass
+        return r, filed
+    rng_cmd = ["decrypt", "dec"]
+    res = self.pmap(one, jobs)
+    for j, rr in zip(jobs, res):
+        key = "report:%s/%s" % ("-o" if j["out"] == "o" else "stdout-" + j["out"], "stderr-" + j["err"])
+        if rr is None:
+            self.count(ctx, "report-wiring-not-available:" + j["err"])
+            continue
+        run, filed = rr
+        self.count(ctx, key)
+        self.count(ctx, "report-kind:" + j["kind"])
+        sc = "C12 sender report, %s: %s, plaintext to %s, stderr to %s, input by %s, keyring %s by %s" % (
+            j["kind"] + (" [" + j["label"] + "]" if j["label"] else ""), j["f"],
+            {"o": "-o", "pipe": "stdout (a pipe)", "file": "stdout (redirected to a file)"}[j["out"]],
+            {"pipe": "a pipe", "file": "a file", "pty": "a terminal", "node": "a character device that keeps nothing"}[j["err"]],
+            "file argument" if j["inp"] == "arg" else "stdin", j["kr"], "-k" if j["krhow"] == "k" else "KESTREL_KEYRING")
+        if j["kind"] == "name":
+            run_d = [dict(run.describe(), keyring=(w.read(j["kr"]) or b"").decode("utf-8", "replace"))]
+        else:
+            run_d = [run.describe()]
+        judge = lambda ok, exp, obs: proc_judge(ctx, ok, sc, run_d, exp, obs)
+        delivered = (filed if filed is not None else b"") if j["out"] == "o" else run.out
+        judge(run.rc == (0 if j["ok"] else 1), "exit %d" % (0 if j["ok"] else 1), "exit %d; stderr %r" % (run.rc, run.err[-200:]))
+        judge(delivered == j["plain"], "exactly the %d bytes of the %s arrive at the destination" % (len(j["plain"]), "plaintext" if j["ok"] else "authenticated prefix"),
+              "%d bytes, first difference at %s" % (len(delivered), first_diff(delivered, j["plain"])))
+        if j["out"] == "o":
+            judge(run.out == b"" and (filed is not None or not j["plain"]), "with -o nothing is written to stdout and the file holds the output",
+                  "stdout %r, file %s" % (run.out[:80], "absent" if filed is None else "present"))
+        if j["err"] == "node":
+            continue
+        rep = s4a_report_lines(run.err)
+        if j["ok"]:
+            judge(rep == j["want"], "stderr carries the sender report, byte for byte, however the streams are wired: %r" % (j["want"],),
+                  "report lines %r; stderr %r" % (rep, run.err[-300:]))
+        else:
+            judge(rep == [] and b"Error: " in run.err, "a failed decryption prints an Error: line and reports NO sender", "stderr %r" % run.err[-300:])
+    shutil.rmtree(sub, ignore_errors=True)
+    # 3. "the keyring entry whose public key EQUALS the authenticated sender key ... or unknown together with ITS encoding": sender keys
+    #    with bit 255 set (another byte string for the same curve point), files made by the library encryptor (shared with C05)
+    props.s4a_c05_key_bytes(self, ctx)
+    # 4. operands that are spelled like the tool's own words
+    s4a_operand_words_part(self, ctx, w)
+
+
+S4A_WORDS = ["help", "version", "encrypt", "decrypt", "enc", "dec", "key", "password", "pass", "generate", "gen", "change-pass", "extract-pub",
+             "kestrel", "h", "v", "o", "t", "f", "k", "to", "from", "output", "keyring", "env-pass", "stdin", "stdout", "true", "usage", "man", "?",
+             "Help", "HELP", "help.txt"]
+S4A_CORE_WORDS = ("help", "version", "key", "decrypt", "h")
+S4A_PLACES = ("in", "out", "to", "from", "kr", "krenv", "unknown-to")
+
+
+def s4a_operand_words_part(self, ctx, w):
+    """C12: 'exits 0 exactly when the requested operation completed', whatever the operands are CALLED.  An input file, an -o
+    target, a key name after -t / -f, a keyring path (-k or KESTREL_KEYRING) that is spelled like one of the tool's own words
+    (command names, aliases, option names without dashes, 'help', 'version') is an operand like any other: the operation is
+    carried out (exit 0, exactly the output at the destination, the sender named; an encryption decrypts back), and a
+    recipient of that name that is not in the keyring is an error (exit 1, nothing delivered).  Every run has a directory
+    of its own; one placement per run, the value always an argument of its own (-t WORD, --to WORD, -to WORD)."""
+    rng = ctx.rng
+    full = ctx.thorough()
+    P = w.P["small"]
+    an, apub, apriv = parse_block(w.blocks["alice"])
+    bn, bpub, bpriv = parse_block(w.blocks["bob"])
+    ring = lambda aname=b"alice", bname=b"bob": (key_block(aname, apub, apriv) + b"\n" + key_block(bname, bpub, bpriv) + b"\n"
+                                                 + key_block(b"carol", w.pub["carol"]))
+    src = {"decrypt": w.read("ct_small"), "pass-decrypt": w.read("pct_small"), "encrypt": P, "pass-encrypt": P}
+    base = w.p("s4w")
+    os.mkdir(base)
+    jobs = []
+    for word in S4A_WORDS:
+        places = S4A_PLACES if (full or word in S4A_CORE_WORDS) else rng.sample(S4A_PLACES, 2)
+        for pl in places:
+            cmd = rng.choice({"in": ["decrypt", "pass-decrypt", "encrypt", "pass-encrypt"], "out": ["decrypt", "pass-decrypt", "encrypt", "pass-encrypt"],
+                              "from": ["encrypt"]}.get(pl, ["decrypt", "encrypt"]))
+            jobs.append({"i": len(jobs), "word": word, "pl": pl, "cmd": cmd, "spell": rng.choice(["short", "long", "dash1"]),
+                         "stdout": pl != "out" and rng.random() < 0.4, "first": rng.random() < 0.5, "alias": rng.random() < 0.3})
+
+    def one(j):
+        d = os.path.join(base, str(j["i"]))
+        os.mkdir(d)
+        word, pl, cmd = j["word"], j["pl"], j["cmd"]
+        key = cmd in ("decrypt", "encrypt")
+        inname = word if pl == "in" else "data.in"
+        outname = word if pl == "out" else "data.out"
+        krname = word if pl in ("kr", "krenv") else "ring.txt"
+        to = word if pl in ("to", "unknown-to") else "bob"
+        frm = word if pl == "from" else "alice"
+        put = lambda n, b: open(os.path.join(d, n), "wb").write(b)
+        put(inname, src[cmd])
+        put("ring0.txt", ring())
+        if key:
+            put(krname, ring(frm.encode(), to.encode() if pl == "to" else b"bob"))
+        names = {"encrypt": ["encrypt"], "decrypt": ["decrypt"], "pass-encrypt": ["password", "encrypt"], "pass-decrypt": ["password", "decrypt"]}[cmd]
+        if j["alias"]:
+            names = [{"encrypt": "enc", "decrypt": "dec", "password": "pass"}[n] for n in names]
+        opts, env = [], {}
+        if key:
+            opts += opt(j["spell"], "to", to)
+            if cmd == "encrypt":
+                opts += opt(j["spell"], "from", frm)
+            if pl == "krenv":
+                env["KESTREL_KEYRING"] = krname
+            else:
+                opts += opt(j["spell"], "keyring", krname)
+        if not j["stdout"]:
+            opts += opt(j["spell"], "output", outname)
+        opts += ["--env-pass"]
+        env.update(env_pw(w.pw["bob"] if cmd == "decrypt" else w.pw["alice"] if cmd == "encrypt" else w.passpw))
+        argv = names + ([inname] + opts if j["first"] else opts + [inname])
+        r = s4a_proc(w, argv, env=env, cwd=d)
+        filed = None
+        try:
+            with open(os.path.join(d, outname), "rb") as fh:
+                filed = fh.read()
+        except OSError:
+            pass
+        got = r.out if j["stdout"] else (filed if filed is not None else b"")
+        back = None
+        if cmd in ("encrypt", "pass-encrypt") and r.rc == 0 and pl != "unknown-to":
+            put("produced.bin", got)
+            if cmd == "encrypt":
+                q = s4a_proc(w, ["decrypt", "-t", "bob", "-k", "ring0.txt", "--env-pass"], env=env_pw(w.pw["bob"]), stdin=("file", "produced.bin"), cwd=d)
+            else:
+                q = s4a_proc(w, ["password", "decrypt", "--env-pass"], env=env_pw(w.passpw), stdin=("file", "produced.bin"), cwd=d)
+            back = (q.rc, q.out)
+        shutil.rmtree(d, ignore_errors=True)
+        return r, filed, got, back
+    res = self.pmap(one, jobs)
+    what = {"in": "the input file is called", "out": "the -o target is called", "to": "the recipient's keyring entry (-t) is called", "from": "the sender's keyring entry (-f) is called",
+            "kr": "the keyring file (-k) is called", "krenv": "the keyring file (KESTREL_KEYRING) is called", "unknown-to": "the recipient (-t), who is NOT in the keyring, is called"}
+    for j, (r, filed, got, back) in zip(jobs, res):
+        self.count(ctx, "operand-word:" + j["pl"])
+        sc = "C12 operands spelled like the tool's words: %s; %s %r (an argument of its own); output to %s" % (
+            j["cmd"], what[j["pl"]], j["word"], "stdout" if j["stdout"] else "-o")
+        judge = lambda ok, exp, obs: proc_judge(ctx, ok, sc, [r.describe()], exp, obs)
+        if j["pl"] == "unknown-to":
+            judge(r.rc == 1 and b"Error: " in r.err and j["word"].encode() in r.err and got == b"" and filed is None and r.out == b"",
+                  "exit 1 with an Error: line naming the key %r, nothing delivered, no output file" % j["word"],
+                  "exit %d, %d bytes delivered, output file %s, stdout %r, stderr %r" % (r.rc, len(got), "absent" if filed is None else "present", r.out[:80], r.err[-200:]))
+            continue
+        judge(r.rc == 0, "the operation is carried out: exit 0", "exit %d; stdout %r; stderr %r" % (r.rc, r.out[:80], r.err[-200:]))
+        if not j["stdout"]:
+            judge(r.out == b"" and filed is not None, "with -o the output file exists and nothing is written to stdout", "file %s, stdout %r" % ("absent" if filed is None else "present", r.out[:80]))
+        if j["cmd"] in ("decrypt", "pass-decrypt"):
+            judge(got == P, "exactly the %d plaintext bytes arrive" % len(P), "%d bytes, first difference at %s" % (len(got), first_diff(got, P)))
+            if j["cmd"] == "decrypt":
+                want = [b"Success. File from: " + (b"alice")]
+                judge(s4a_report_lines(r.err) == want, "the sender is named: %r" % want, "stderr %r" % r.err[-200:])
+        else:
+            hdr, magic = (HDR, b"egk\x10") if j["cmd"] == "encrypt" else (PHDR, b"egk\x20")
+            judge(got[:4] == magic and len(got) == hdr + 32 + len(P) and back == (0, P),
+                  "the output is the ciphertext (%d bytes, magic %s) and decrypts to the plaintext" % (hdr + 32 + len(P), magic.hex()),
+                  "%d bytes beginning %r; decrypting it: %s" % (len(got), got[:16], "not attempted" if back is None else "exit %d, plaintext %s" % (back[0], "equal" if back[1] == P else "differs")))
+    shutil.rmtree(base, ignore_errors=True)
+
+
 def first_diff(a, b):
     for i, (x, y) in enumerate(zip(a, b)):
         if x != y:
@@ -3205,6 +4000,51 @@ def c13_prepare_shape(shape, d):
     raise ValueError(shape)
 
 
+# ---- C13, "bad arguments: input and output are the same": ONE file reached by the input argument AND by -o ---------------------
+# The run's private directory (c13_same_layout):
+#   data                      the file (valid input of the command: plaintext / key-mode file / password-mode file)
+#   dä ✓                     a second copy under a non-ASCII name with a blank in it
+#   hl                        a hard link to data
+#   lnk -> data, lnk2 -> lnk, lnkabs -> <dir>/data, dang -> nowhere
+#   real/data2                a copy in a sub-directory;  real/up -> ../data
+#   ln -> real, lnabs -> <dir>/real      symbolic links to the directory
+#   sub/, sub/deep/           empty directories (for '..' spellings and as working directories)
+# IDENTICAL strings: the program is given the same string as input and as -o.  It must refuse (exit 1) and leave everything as it was,
+# however the string reaches the file.  (label, string; @D = the run's directory)
+C13_SAME_STRINGS = [
+    ("plain", "data"), ("dot-slash", "./data"), ("sub-directory", "real/data2"), ("dot-dot", "sub/../data"), ("dot-dot twice", "sub/deep/../../data"),
+    ("absolute", "@D/data"), ("absolute with dot-dot", "@D/real/../data"), ("absolute with a dot", "@D/./data"), ("double slash", "real//data2"),
+    ("dot inside", "real/./data2"), ("leading double slash", "//@D/data"), ("non-ASCII name", "dä ✓"), ("hard link", "hl"),
+    ("symbolic link to the file", "lnk"), ("chain of symbolic links", "lnk2"), ("absolute symbolic link", "lnkabs"),
+    ("symbolic link pointing up, in a sub-directory", "real/up"), ("symbolic link, dot-slash", "./lnk"), ("symbolic link, absolute", "@D/lnk"),
+    ("symbolically linked directory", "ln/data2"), ("absolutely linked directory", "lnabs/data2"),
+    ("absolute path through a linked directory", "@D/ln/data2"), ("dot-dot through a linked directory", "ln/../data"),
+    ("linked directory, then a link pointing up", "ln/up"), ("absent", "nofile"), ("absent below a linked directory", "ln/nofile"),
+    ("dangling symbolic link", "dang"), ("a directory", "sub"), ("a linked directory", "ln"),
+]
+# the same, seen from a sub-directory as the working directory: (label, working directory, string)
+C13_SAME_STRINGS_CWD = [("parent-relative, from sub/", "sub", "../data"), ("through a linked directory, from sub/deep/", "sub/deep", "../../ln/data2"),
+                        ("symbolic link, from real/", "real", "up"), ("linked working directory", "ln", "data2")]
+# TWO spellings of one file: the unchanged program compares strings and does not refuse these (DESIGN 7.3, recorded observation)
+C13_SAME_PAIRS = [("data", "./data"), ("./data", "data"), ("data", "@D/data"), ("lnk", "data"), ("data", "lnk"), ("hl", "data"), ("ln/data2", "real/data2"),
+                  ("real/data2", "ln/data2"), ("sub/../data", "data"), ("lnk2", "lnk"), ("real/up", "data"), ("@D/ln/data2", "ln/data2")]
+
+
+def c13_same_layout(d, data):
+    def mk(rel, b=data):
+        with open(os.path.join(d, rel), "wb") as f:
+            f.write(b)
+    for sub in ("real", "sub", "sub/deep"):
+        os.mkdir(os.path.join(d, sub))
+    mk("data")
+    mk("dä ✓")
+    mk("real/data2")
+    os.link(os.path.join(d, "data"), os.path.join(d, "hl"))
+    for name, target in (("lnk", "data"), ("lnk2", "lnk"), ("lnkabs", os.path.join(d, "data")), ("dang", "nowhere"), ("real/up", "../data"),
+                         ("ln", "real"), ("lnabs", os.path.join(d, "real"))):
+        os.symlink(target, os.path.join(d, name))
+
+
 class C13(ProcProp):
     id = "C13"
     rule = ("cases: the five writing commands (encrypt, decrypt, password encrypt, password decrypt, key generate -o) x every "
@@ -3224,7 +4064,12 @@ class C13(ProcProp):
             "every command x -o paths that cannot be created (alone, over a sentinel, together with an unset password / a missing input), "
             "directories as input x {-o absent, sentinel, stdout, uncreatable, unset password} with the header the encryptors leave behind "
             "compared byte for byte, one file under two names for all four commands (dotted / absolute spellings, trailing data, wrong "
-            "password, the keyring as -o, key generate, a two-chunk file written by an independent ChaCha20-Poly1305); non-trivial = every run")
+            "password, the keyring as -o, key generate, a two-chunk file written by an independent ChaCha20-Poly1305), the same dotted string twice for "
+            "every command; same-file part: `cmd F -o F` for the four file commands with a VALID input, the identical string given twice in 33 "
+            "guises (plain, './', 'sub/../', absolute, '//', non-ASCII, a hard link, a symbolic link to the file / chained / absolute / pointing up, a "
+            "symbolically linked directory relative / absolute / behind '..', from three other working directories, absent, dangling, a directory): "
+            "exit 1 and the run's whole tree unchanged; two different spellings of the one file (12 pairs; quick 3 per command) are the recorded "
+            "alias observation: counted, judged only when the program itself refuses them; non-trivial = every run")
     assumptions = ["all causes x wirings are judged by direct oracles; one run per failure-cause class x {absent, sentinel} is compared with the "
                    "CLI model (exit code, message class, stdout, content of the output path)",
                    "later-chunk failures (files over 64 KiB) are not evaluated in the model: too large for vm_compute; a later-chunk failure "
@@ -3503,6 +4348,9 @@ class C13(ProcProp):
             t_tr = time.time()
             self.tree_part(ctx, w)
             ctx.distribution["seconds:whole-tree-part"] = round(time.time() - t_tr, 1)
+            t_sf = time.time()
+            self.same_file_part(ctx, w)
+            ctx.distribution["seconds:same-file-part"] = round(time.time() - t_sf, 1)
             ctx.evaluations += w.nruns
             self.count(ctx, "proc:runs", w.nruns)
         finally:
@@ -3610,6 +4458,86 @@ class C13(ProcProp):
                 except OSError:
                     through = None
             return run, before, after, (oarg if not os.path.isabs(oarg) else "<run dir>" + oarg[len(d):]), land, through
+        finally:
+            shutil.rmtree(d, ignore_errors=True)
+
+    # ---- "bad arguments: input and output are the same": one file named by the input argument and by -o
+    def same_file_part(self, ctx, w):
+        """The classic slip `kestrel encrypt F -o F` for the four file commands, with a VALID input (so that nothing but the refusal
+        stands between the command and the only copy of the data).  The same STRING twice - plain, dotted, absolute, through a hard
+        link, a symbolic link to the file, a chain, a symbolically linked directory, '..' behind a link, from other working
+        directories, absent / dangling / a directory: exit 1 and the whole tree of the run's directory as before.  Two different
+        spellings of one file are the recorded alias observation (DESIGN 7.3): counted; judged only when the program itself says
+        that input and output are the same (then it must have left everything alone)."""
+        rng = ctx.rng
+        full = ctx.thorough()
+        wir = [c for c in all_wirings(True) if c["out"] == "o" and c["inp"] == "arg"]
+        A, Bp = w.pw["alice"], w.pw["bob"]
+        cmds = [("encrypt", "encrypt", "pt_small", dict(to="bob", frm="alice", keyring=True, pw=A)),
+                ("decrypt", "decrypt", "ct_small", dict(to="bob", keyring=True, pw=Bp)),
+                ("password encrypt", "pass-encrypt", "pt_small", dict(pw=w.passpw)),
+                ("password decrypt", "pass-decrypt", "pct_small", dict(pw=w.passpw))]
+        if full:
+            cmds += [("encrypt", "encrypt", "pt_big", dict(to="bob", frm="alice", keyring=True, pw=A)),
+                     ("decrypt", "decrypt", "ct_big", dict(to="bob", keyring=True, pw=Bp)),
+                     ("password decrypt", "pass-decrypt", "pct_big", dict(pw=w.passpw))]
+        jobs = []
+        for cmd, wcmd, src, kw in cmds:
+            data = w.read(src)
+            one_chunk = not src.endswith("_big")
+            strings = [(lab, None, s) for lab, s in C13_SAME_STRINGS] + [(lab, cwd, s) for lab, cwd, s in C13_SAME_STRINGS_CWD]
+            if not one_chunk:
+                strings = rng.sample(strings, 8)
+            for lab, cwd, s in strings:
+                for cfg in [BASE_WIRING] + (rng.sample(wir, 2) if full else ([rng.choice(wir)] if rng.random() < 0.25 else [])):
+                    jobs.append({"cmd": cmd, "wcmd": wcmd, "src": src, "data": data, "kw": kw, "kind": "identical", "label": lab, "cwd": cwd,
+                                 "inp": s, "out": s, "cfg": cfg, "one_chunk": one_chunk})
+            for a, b in (C13_SAME_PAIRS if full else rng.sample(C13_SAME_PAIRS, 3)):
+                jobs.append({"cmd": cmd, "wcmd": wcmd, "src": src, "data": data, "kw": kw, "kind": "two-spellings", "label": "%s / %s" % (a, b),
+                             "cwd": None, "inp": a, "out": b, "cfg": rng.choice(wir) if rng.random() < 0.5 else BASE_WIRING, "one_chunk": one_chunk})
+        for i, j in enumerate(jobs):
+            j["i"] = i
+        res = self.pmap(lambda j: self.same_one(w, j), jobs)
+        for j, (run, before, after, shown) in zip(jobs, res):
+            diff = kvc_tree_diff(before, after)
+            if j["kind"] == "identical":
+                self.count(ctx, "same-file:identical-string:" + j["label"])
+                self.count(ctx, "same-file-cause:%s" % j["cmd"])
+                sc = ("C13 same file: %s, cause bad-arguments:input = output, the string %r given as input AND as -o (%s%s; input file: valid %s), wiring %s"
+                      % (j["cmd"], shown, j["label"], ", working directory %s/" % j["cwd"] if j["cwd"] else "", j["src"], wname(j["cfg"])))
+                self.judge(ctx, run.rc == 1 and "Error: " in run.errtext(), sc, [run], "the command fails: exit 1 with an Error: message",
+                           "exit %d, stderr %r" % (run.rc, run.errtext()[-200:]))
+                self.judge(ctx, not diff, sc, [run],
+                           "the file is left byte-for-byte intact and nothing is created: the run's whole directory tree (%d entries: files with their "
+                           "bytes, directories, links) is the same after the refused command" % len(before), "; ".join(diff[:8]))
+                if j["i"] % 50 == 0:
+                    self.sample(ctx, {"scenario": sc, "exit": run.rc, "stderr": run.errtext()[-120:]})
+            else:
+                sc = ("C13 same file under two spellings: %s %r -o %r (input file: valid %s), wiring %s" % (j["cmd"], j["inp"], j["out"], j["src"], wname(j["cfg"])))
+                self.judge(ctx, run.rc in (0, 1), sc, [run], "the command ends with exit 0 or 1", "exit %d, stderr %r" % (run.rc, run.errtext()[-200:]))
+                refused = "must be different" in run.errtext()
+                if refused:
+                    self.judge(ctx, run.rc == 1 and not diff, sc, [run], "a command that refuses its arguments (input and output are the same) exits 1 and "
+                               "leaves the whole tree as it was", "exit %d; %s" % (run.rc, "; ".join(diff[:8])))
+                self.count(ctx, "same-file:two-spellings:%s" % ("refused" if refused else "exit-%d-%s" % (run.rc, "input-replaced" if diff else "tree-unchanged")))
+
+    def same_one(self, w, j):
+        d = w.p("sf_%d" % j["i"])
+        os.mkdir(d)
+        try:
+            c13_same_layout(d, j["data"])
+            kw = dict(j["kw"])
+            if kw.pop("keyring", None):
+                try:
+                    os.link(w.p("kr_full"), os.path.join(d, "kr_full"))
+                except OSError:
+                    shutil.copyfile(w.p("kr_full"), os.path.join(d, "kr_full"))
+                kw["keyring"] = os.path.join(d, "kr_full") if j["cwd"] else "kr_full"
+            argv, env, stdin = wire(j["wcmd"], j["cfg"], j["inp"].replace("@D", d), j["out"].replace("@D", d), **kw)
+            before = kvc_tree_snapshot(d)
+            run, _ = kvc_run(w, argv, env=env, stdin=stdin, cwd=os.path.join(d, j["cwd"]) if j["cwd"] else d, timeout=90)
+            after = kvc_tree_snapshot(d)
+            return run, before, after, j["inp"].replace("@D", "<run dir>")
         finally:
             shutil.rmtree(d, ignore_errors=True)
 
@@ -4320,6 +5248,10 @@ def kvw_cases(ctx, mw, which):
         add("%s %r -o %r: one file, two names" % (name, i, o), ops[name][0](i, o), pw=ops[name][1], tag="alias")
     for name, (mk, pw, inp) in pick(list(ops.items()), 2):
         add("%s, the same string twice" % name, mk("./" + inp, "./" + inp), pw=pw, tag="alias", oracle=kvw_unchanged("input and output are the same string"))
+    # (C13 same-file family) every command, the same string twice in a spelling that making-absolute and resolving treat differently
+    for name, (mk, pw, inp) in ops.items():
+        for s in pick(["sub/../" + inp, "sub/deep/../../" + inp, "@R/sub/../" + inp, "./sub/./../" + inp, "../r/" + inp, "//@R/" + inp, inp], 1):
+            add("%s, the same string %r twice" % (name, s), mk(s, s), pw=pw, tag="alias", oracle=kvw_unchanged("input and output are the same string"))
     add("password decrypt, alias, data after the last chunk", ops["pass-decrypt"][0]("px", "./px"), tree=dict(base, px=mw.pct + b"garbage"), pw=mw.passpw,
         tag="alias", oracle=kvw_unchanged("the last chunk is not released"))
     add("password decrypt, alias, wrong password", ops["pass-decrypt"][0]("pct", "./pct"), pw=b"not the password", tag="alias", oracle=kvw_unchanged("nothing is authenticated"))
